@@ -775,7 +775,10 @@ class Not(Logical, Prefix):
 
     @property
     def factors(self: 'Not') -> 'dsl.Predicate.Factors':
-        return self._factors(self.operand)
+        elements = Element.dissect(self.operand)
+        if elements and all(isinstance(e, Column) for e in elements) and len({e.origin for e in elements}) == 1:
+            return Predicate.Factors(self)  # negation of a single-table predicate is a factor of that table
+        return Predicate.Factors()  # the negation of a conjunction implies none of the negated factors
 
 
 class Comparison(Predicate):
